@@ -31,12 +31,12 @@ def k1(nrec, hard, tier, timeout=280):
              unwind=24, unwindset=['strlen.0:40', RDLOOP + ':%d' % (nrec + 2)], tier=tier, timeout=timeout,
              bounds='one context, %d record(s) written by the real log_statement (symbolic timestamps, User or System clock, last record Log or Flush), hard limit %d, ts_now symbolic (incl. "no grace period")' % (nrec, hard),
              what='K1: real _read_and_decode_frontend_queue: records decoded in order into the transit buffer with their timestamp / metadata / logger / flush flag; finish_read for exactly the decoded records; a System-clock record newer than ts_now and everything behind it stays queued, unconsumed; User-clock records are never held back; the hard limit stops the read')
-QUERIES += [k1(1, 8, 'thorough', 1700), k1(2, 8, 'thorough', 1700), k1(2, 1, 'thorough', 1700)]
+QUERIES += [k1(1, 8, 'unregistered', 1700), k1(2, 8, 'unregistered', 1700), k1(2, 1, 'unregistered', 1700)]   # K1 runs out of memory (16 GB): kept, not run
 QUERIES += [k3(2, 0, 'quick'), k3(1, 1, 'quick'), k3(1, 2, 'quick', wide=0), k3(2, 2, 'thorough', timeout=1700, wide=0), k3(1, 2, 'thorough', timeout=1700)]
 # NOTE: harness/C03_backend.cpp + harness/bk.h (kernels K1/K3 on the real BackendWorker) are kept in the tree but NOT registered:
 # at 1-2 contexts x 1-2 records CBMC needed > 60 GB / did not finish in 10 min (see DESIGN.md section 7).
 MANIFEST = {
- 'text': 'Reduced scope. Decided by the solver on the real code: K2, the per-thread backend ring (TransitEventBuffer) keeps exact FIFO content across position wrap-around, expansion and shrink (inductive step from an arbitrary ring state); K3, the real _process_lowest_timestamp_transit_event dispatches per call exactly one event, the minimum timestamp over all thread buffers, pops exactly that one and reports false iff nothing is buffered, so every buffered event is dispatched once and in global timestamp order; (thorough tier only, expensive) K1, the real _read_and_decode_frontend_queue on records written by the real log_statement. The per-sink fan-out is decided by C16 per_sink_loop and C12 multiline_*, the queues by C01/C02, the level gate by C16, the codec by C04. The poll skeleton (K5), the clean-up condition (K4) and the composition of the kernels are NOT solved (argument in DESIGN.md).',
+ 'text': 'Reduced scope. Decided by the solver on the real code: K2, the per-thread backend ring (TransitEventBuffer) keeps exact FIFO content across position wrap-around, expansion and shrink (inductive step from an arbitrary ring state); K3, the real _process_lowest_timestamp_transit_event dispatches per call exactly one event, the minimum timestamp over all thread buffers, pops exactly that one and reports false iff nothing is buffered, so every buffered event is dispatched once and in global timestamp order; The per-sink fan-out is decided by C16 per_sink_loop and C12 multiline_*, the queues by C01/C02, the level gate by C16, the codec by C04. The read/decode loop incl. the timestamp hold-back (K1: harness exists, CBMC runs out of memory), the poll skeleton (K5), the clean-up condition (K4) and the composition of the kernels are NOT solved (argument in DESIGN.md).',
  'note': 'K2: capacities 1,2 (quick) / 4 (thorough). K3: 2 contexts x <= 2 events, light worker (only the members the kernel touches are constructed), dispatch observed by an IR hook. TransitEvent payload replaced by a shallow model. Trusted: clang IR, translator, CBMC.',
  'technique': 'CBMC/SAT over clang IR of the real TransitEventBuffer and BackendWorker dispatch kernel from symbolic states; IR-level observation hooks; native replay',
 }
